@@ -331,6 +331,90 @@ def oracle_offset(sec):
 DIM = [31, 28, 31, 30, 31, 30, 31, 31, 30, 31, 30, 31]
 
 
+# ---------------------------------------------------------------------------------------------------
+# the ISO standard patterns are culture-independent: created by letter for ANY culture (or under any current
+# culture) they must write the same ISO text as the invariant built-ins, and read the stdlib's text
+# ---------------------------------------------------------------------------------------------------
+
+_ISO_LETTERS = [("Instant", "g"), ("LocalDate", "R"), ("LocalTime", "o"), ("LocalTime", "O"),
+                ("LocalDateTime", "o"), ("LocalDateTime", "O"), ("LocalDateTime", "r"), ("LocalDateTime", "R"),
+                ("LocalDateTime", "s")]
+
+
+def culture_names(ctx):
+    """culture names: at least three per (time separator, date separator, decimal separator) class, plus a
+    seeded sample (all of them in the thorough tier); [] when ICU is not available (stub: invariant only)"""
+    try:
+        import icu
+        from pyoda_time._compatibility._culture_info import CultureInfo
+        names = sorted(str(k).replace("_", "-") for k in icu.Locale.getAvailableLocales().keys())
+    except Exception:  # noqa: BLE001
+        return []
+    classes = {}
+    ok = []
+    for n in names:
+        try:
+            c = CultureInfo(n)
+            key = (c.date_time_format.time_separator, c.date_time_format.date_separator, c.number_format.number_decimal_separator
+                   if hasattr(c.number_format, "number_decimal_separator") else "")
+        except Exception:  # noqa: BLE001
+            continue
+        ok.append(n)
+        classes.setdefault(key, []).append(n)
+    if ctx.thorough:
+        return ok
+    pick = set()
+    for v in classes.values():
+        pick.update(v[:3])
+    pick.update(ctx.rng.sample(ok, min(25, len(ok))))
+    return sorted(pick)
+
+
+def oracle_culture(case):
+    """case = (culture name, use_current_culture)"""
+    name, use_current = case
+    P, T = _P(), _T()
+    from pyoda_time._compatibility._culture_info import CultureInfo
+    cul = CultureInfo(name)
+    inv = CultureInfo.invariant_culture
+    samples = {
+        "Instant": [(P.Instant.from_utc(2024, 2, 29, 13, 45, 30), "2024-02-29T13:45:30Z"),
+                    (P.Instant.from_utc(1969, 12, 31, 23, 59, 59), "1969-12-31T23:59:59Z")],
+        "LocalDate": [(P.LocalDate(2024, 2, 29), pydt.date(2024, 2, 29).isoformat())],
+        "LocalTime": [(P.LocalTime(13, 45, 30), None), (P.LocalTime(0, 0, 0), None)],
+        "LocalDateTime": [(P.LocalDateTime(2024, 2, 29, 13, 45, 30), None), (P.LocalDateTime(1, 1, 1, 0, 0, 0), None)],
+    }
+    old = None
+    try:
+        if use_current:
+            old = CultureInfo.current_culture
+            CultureInfo.current_culture = cul
+        for ty, letter in _ISO_LETTERS:
+            PT = getattr(T, ty + "Pattern")
+            try:
+                pat = PT.create_with_current_culture(letter) if use_current else PT.create(letter, cul)
+                ref = PT.create(letter, inv)
+            except Exception as e:  # noqa: BLE001
+                return fail("iso-standard-letter-culture", f"{ty}Pattern '{letter}' for culture {name}: creation raised {type(e).__name__}: {e}")
+            for v, iso in samples[ty]:
+                txt, want = pat.format(v), ref.format(v)
+                if txt != want or (iso is not None and txt != iso):
+                    return fail("iso-standard-letter-culture", f"{ty}Pattern '{letter}' built for culture {name}"
+                                f"{' (as current culture)' if use_current else ''} writes {txt!r}; the ISO text is {iso or want!r}")
+                got, why = parse_ok(pat, want)
+                if got is None or got != v:
+                    return fail("iso-standard-letter-culture", f"{ty}Pattern '{letter}' built for culture {name} does not read {want!r}: {why} {got!r}")
+        if use_current:
+            i = P.Instant.from_utc(2024, 2, 29, 13, 45, 30)
+            for what, txt in (("repr(instant)", repr(i)), ("str(instant)", str(i)), ("format(instant, 'g')", format(i, "g"))):
+                if txt != "2024-02-29T13:45:30Z":
+                    return fail("iso-standard-letter-culture", f"{what} under current culture {name} is {txt!r}, ISO text is '2024-02-29T13:45:30Z'")
+    finally:
+        if old is not None:
+            CultureInfo.current_culture = old
+    return None
+
+
 def is_leap(y):
     return y % 4 == 0 and (y % 100 != 0 or y % 400 == 0)
 
@@ -431,6 +515,11 @@ def run(ctx):
     if ctx.thorough:
         secs = list(range(-64800, 64801))
     ctx.check_cases("iso.offset.seconds", secs, oracle_offset, exhaustive=ctx.thorough)
+    # the ISO standard letters in every culture class ---------------------------------------------
+    cn = culture_names(ctx)
+    ctx.note("cultures_for_standard_letters", len(cn))
+    ctx.check_cases("iso.standard-letters.by-culture", [(n, False) for n in cn] + [(n, True) for n in cn[::4]], oracle_culture,
+                    exhaustive=ctx.thorough)
     # model correspondence (ISO formatters / parsers and the PyIso transcription) ----------------------
     import c07
     c07.run_iso_correspondence(ctx, "c17")
@@ -445,7 +534,7 @@ def replay_op(op, failure):
     if src.startswith("oracle:"):
         name = src.split(":", 1)[1]
         case = ast.literal_eval(op)
-        fn = {"iso.date": oracle_date, "iso.time": oracle_time, "iso.datetime": oracle_datetime,
+        fn = {"iso.standard-letters": oracle_culture, "iso.date": oracle_date, "iso.time": oracle_time, "iso.datetime": oracle_datetime,
               "iso.instant": oracle_instant, "iso.offset": oracle_offset}
         for k in sorted(fn, key=len, reverse=True):
             if name.startswith(k):
